@@ -11,6 +11,11 @@ with loop productions; source text through the real @fp.fpy decorator) and from 
 A transform raising at transform time is counted (`refused:*` / `transform-raises:*`), not a violation of this
 property.  STRICT is only asked for where its documented precondition (length divisible by the factor) holds by
 construction; an inserted assert firing on an input that violates it would be a generator bug (exit 2).
+
+Failure buckets are root-cause signatures: `gensym/name-collision:numbered-name` (a generated temporary equals a user
+name; decided by re-running on an alpha-renamed program, vlib.c08_diag), `<strategy>/name-collision:comprehension-scope`,
+`<strategy>/name-collision:user-name`, otherwise `<strategy>[/PEEL|STRICT]/<raises:Exc|wrong-value>/<most specific suspect
+feature of the program or input>`.  A failing two-step schedule is attributed to the step that already fails alone.
 """
 
 from __future__ import annotations
@@ -142,7 +147,10 @@ def bucket_of(cfg, feats, verdict, length, k, trips=None):
     kinds = {cfg['t']} if cfg['t'] != 'seq' else {s['t'] for s in cfg['steps']}
     hint = None
     if 'fuse' in kinds:
-        hint = next((h for h in FUSE_HINTS if h in feats), None)
+        order = FUSE_HINTS
+        if verdict[0] == 'raises' and 'anyall-guarded-fault' in feats:
+            order = ['anyall-guarded-fault'] + FUSE_HINTS      # the original returned, so a fault was guarded
+        hint = next((h for h in order if h in feats), None)
     if hint is None and 'elim_iter' in kinds:
         hint = next((h for h in ELIM_HINTS if h in feats), None)
     if hint is None and kinds & {'unroll_for', 'split', 'unroll_while'}:
@@ -740,8 +748,7 @@ def template_cfgs(kinds, meta, for_tops, n_top):
                 sel = c08_gen.selected_for_loops(meta.for_loops, w, for_tops)
                 st = c08_gen.strict_status(meta.for_loops, sel, times + 1) if sel is not None else None
                 if st is not None and c08_gen.strict_where_ok(meta.for_loops, w, times + 1):
-                    if True:
-                        cfgs.append({'t': 'unroll_for', 'times': times, 'where': w, 'strategy': 'STRICT', 'strict': st})
+                    cfgs.append({'t': 'unroll_for', 'times': times, 'where': w, 'strategy': 'STRICT', 'strict': st})
         cfgs.append({'t': 'unroll_for', 'times': 2, 'where': None, 'strategy': 'PEEL', 'ids': {'temp_id': 'acc', 'len_id': 'i', 'idx_id': 'x'}})
     if 'split' in kinds:
         for factor in (1, 2, 3, 4, 5, 'K'):
@@ -751,8 +758,7 @@ def template_cfgs(kinds, meta, for_tops, n_top):
                 sel = c08_gen.selected_for_loops(meta.for_loops, w, for_tops)
                 st = c08_gen.strict_status(meta.for_loops, sel, k) if sel is not None else None
                 if st is not None and c08_gen.strict_where_ok(meta.for_loops, w, k):
-                    if True:
-                        cfgs.append({'t': 'split', 'factor': factor, 'where': w, 'strategy': 'STRICT', 'strict': st})
+                    cfgs.append({'t': 'split', 'factor': factor, 'where': w, 'strategy': 'STRICT', 'strict': st})
         cfgs.append({'t': 'split', 'factor': 2, 'where': None, 'strategy': 'PEEL', 'ids': {'temp_id': 'acc', 'outer_id': 'x', 'inner_id': 'i'}})
     if 'unroll_while' in kinds:
         for times in (1, 2, 3):
